@@ -34,7 +34,9 @@ RULE = (
     "optional pre-existing target): one fault-free execution per history, then "
     "one execution per numbered I/O step and applicable fault kind (EIO, ENOSPC, "
     "short read), per caller-body exception position and per archive corruption "
-    "(truncation, byte flip). Non-trivial = a fault fired inside a block that "
+    "(truncation, byte flip); a failed block does not end the history, later "
+    "blocks must still work; the thorough tier adds up to 40 random double "
+    "faults per history. Non-trivial = a fault fired inside a block that "
     "uses a real compression format, or a fault-free round trip of non-empty "
     "content. Distinct = distinct (history digest, fault) pairs.")
 ASSUMPTIONS = [
@@ -659,6 +661,7 @@ def run_one(tape, only=None):
     violations, probes, faults = [], {}, {}
     logs, distinct, samples = [], [], []
     executions = 0
+    last_trace = []
 
     def execute(fault):
         nonlocal executions
@@ -681,6 +684,7 @@ def run_one(tape, only=None):
                 v["message"] += f" [fault {fault}]"
         violations.extend(ex.V)
         logs.append(f"{fault}:" + digest_of(ex.log))
+        last_trace[:] = ex.plane.trace
         if ex.nontrivial:
             distinct.append(f"{wd}:{fault}")
         return ex
@@ -760,6 +764,8 @@ def run_one(tape, only=None):
     res["nontrivial"] = bool(distinct)
     res["wdigest"] = wd
     res["edigest"] = digest_of(logs)
+    res["trace"] = {"executions": logs[:60], "io_steps_of_fault_free_run": [
+        f"{k}:{op}:{label}" for k, (op, label, blk) in enumerate(last_trace[:200])]}
     res["distinct_keys"] = distinct
     res["counters"] = {"blocks": len(w["blocks"])}
     res["kinds"] = [f"fmt={b.get('fmt')}" for b in w["blocks"] if b["kind"] == "compress"]
